@@ -351,5 +351,40 @@ theorem isfinite_iff_bounded (d : DFA σ α) (hv : d.validate = .ok ()) (pd : d.
         have := hn w' hacc
         omega
 
+/-! ### finitely many short words over a finite alphabet -/
+
+/-- All words over `syms` of length at most `n`. -/
+def wordsLe (syms : List α) : Nat → List (List α)
+  | 0 => [[]]
+  | n + 1 => [] :: (wordsLe syms n).flatMap fun w => syms.map fun a => a :: w
+
+theorem mem_wordsLe {syms : List α} :
+    ∀ (n : Nat) (w : List α), w.length ≤ n → (∀ a ∈ w, a ∈ syms) → w ∈ wordsLe syms n := by
+  intro n
+  induction n with
+  | zero =>
+    intro w hw _
+    have : w = [] := List.eq_nil_of_length_eq_zero (by omega)
+    subst this
+    simp [wordsLe]
+  | succ n ih =>
+    intro w hw hs
+    cases w with
+    | nil => simp [wordsLe]
+    | cons a w =>
+      simp only [wordsLe]
+      refine List.mem_cons_of_mem _ (List.mem_flatMap.mpr ⟨w, ih w ?_ ?_, ?_⟩)
+      · simpa using hw
+      · exact fun b hb => hs b (List.mem_cons_of_mem _ hb)
+      · exact List.mem_map.mpr ⟨a, hs a (by simp), rfl⟩
+
+/-- Accepted words of a valid DFA use alphabet symbols only. -/
+theorem syms_of_accepts {d : DFA σ α} (wf : d.WF) {w : List α} (h : d.accepts w = true) :
+    ∀ a ∈ w, a ∈ d.syms := by
+  intro a ha
+  refine Classical.byContradiction fun hna => ?_
+  rw [accepts_foreign wf ⟨a, ha, hna⟩] at h
+  cases h
+
 end DFA
 end AV
